@@ -621,6 +621,116 @@ package protocol
 //@   ghostset after AppendUint: crLen = len(result)
 //@   assert before ResponseHeader.SetCanonical: crStep == 7 && crIs(arg2) && len(arg1) == 13 && arg1[0] == 'C' && arg1[8] == 'R' && arg1[12] == 'e'
 
+// C17 (URI serialisers, typestates over their append events; cr*: the buffer built so far, c2*: the piece last
+// obtained from a getter): RequestURI is the quoted normalised path (or the original path when normalising is off)
+// followed, when there are parsed query arguments, by '?' and their serialisation, else, when the raw query string
+// is not empty, by '?' and that string; the parsed arguments take precedence. AppendBytes is scheme "://" host,
+// the request URI and, when the fragment is not empty, '#' and the fragment, each piece appended to the previous result.
+//@ ghost var c2Arr int
+//@ ghost var c2Off int
+//@ ghost var c2Len int
+//@ ghost var ruArgs bool
+//@ macro c2Is(s) = arr(s) == c2Arr && off(s) == c2Off && len(s) == c2Len
+//@ func URI.RequestURI(u) r
+//@   props C17
+//@   abstract
+//@   noinline
+//@   modifies crStep, crArr, crOff, crLen, c2Arr, c2Off, c2Len, ruArgs
+//@   ghostset-at-entry crStep = 0
+//@   ghostset-at-entry ruArgs = false
+//@   ghostset after URI.Path: c2Arr = arr(result)
+//@   ghostset after URI.Path: c2Off = off(result)
+//@   ghostset after URI.Path: c2Len = len(result)
+//@   ghostset after URI.PathOriginal: c2Arr = arr(result)
+//@   ghostset after URI.PathOriginal: c2Off = off(result)
+//@   ghostset after URI.PathOriginal: c2Len = len(result)
+//@   assert before append#0: crStep == 0 && len(arg0) == 0 && c2Is(arg1)
+//@   assert before AppendQuotedPath: crStep == 0 && len(arg0) == 0 && c2Is(arg1)
+//@   ghostset after Args.Len: ruArgs = (result > 0)
+//@   assert before append#1: crStep == 1 && crIs(arg0) && ruArgs && len(arg1) == 1 && arg1[0] == '?'
+//@   assert before Args.AppendBytes: crStep == 2 && crIs(arg1) && ruArgs && arg0 == &u.queryArgs
+//@   assert before append#2: crStep == 1 && crIs(arg0) && !ruArgs && len(arg1) == 1 && arg1[0] == '?'
+//@   assert before append#3: crStep == 2 && crIs(arg0) && !ruArgs && sameSlice(arg1, u.queryString) && len(arg1) > 0
+//@   ghostset after append: crStep = crStep + 1
+//@   ghostset after append: crArr = arr(result)
+//@   ghostset after append: crOff = off(result)
+//@   ghostset after append: crLen = len(result)
+//@   ghostset after AppendQuotedPath: crStep = crStep + 1
+//@   ghostset after AppendQuotedPath: crArr = arr(result)
+//@   ghostset after AppendQuotedPath: crOff = off(result)
+//@   ghostset after AppendQuotedPath: crLen = len(result)
+//@   ghostset after Args.AppendBytes: crStep = crStep + 1
+//@   ghostset after Args.AppendBytes: crArr = arr(result)
+//@   ghostset after Args.AppendBytes: crOff = off(result)
+//@   ghostset after Args.AppendBytes: crLen = len(result)
+//@   top-ensures crIs(r) && crIs(u.requestURI) && (crStep == 1 || crStep == 3)
+//@   top-ensures crStep == 1 ==> !ruArgs && len(u.queryString) == 0
+
+//@ func URI.appendSchemeHost(u, dst) r
+//@   props C17
+//@   abstract
+//@   noinline
+//@   modifies crStep, crArr, crOff, crLen, c2Arr, c2Off, c2Len
+//@   ghostset-at-entry crStep = 0
+//@   ghostset after URI.Scheme: c2Arr = arr(result)
+//@   ghostset after URI.Scheme: c2Off = off(result)
+//@   ghostset after URI.Scheme: c2Len = len(result)
+//@   ghostset after URI.Host: c2Arr = arr(result)
+//@   ghostset after URI.Host: c2Off = off(result)
+//@   ghostset after URI.Host: c2Len = len(result)
+//@   assert before append#0: crStep == 0 && sameSlice(arg0, dst) && c2Is(arg1)
+//@   assert before append#1: crStep == 1 && crIs(arg0) && len(arg1) == 3 && arg1[0] == ':' && arg1[1] == '/' && arg1[2] == '/'
+//@   assert before append#2: crStep == 2 && crIs(arg0) && c2Is(arg1)
+//@   ghostset after append: crStep = crStep + 1
+//@   ghostset after append: crArr = arr(result)
+//@   ghostset after append: crOff = off(result)
+//@   ghostset after append: crLen = len(result)
+//@   top-ensures crStep == 3 && crIs(r)
+
+//@ ghost var abStep int
+//@ ghost var abArr int
+//@ ghost var abOff int
+//@ ghost var abLen int
+//@ ghost var ab2Arr int
+//@ ghost var ab2Off int
+//@ ghost var ab2Len int
+//@ macro abIs(s) = arr(s) == abArr && off(s) == abOff && len(s) == abLen
+//@ macro ab2Is(s) = arr(s) == ab2Arr && off(s) == ab2Off && len(s) == ab2Len
+//@ func URI.AppendBytes(u, dst) r
+//@   props C17
+//@   abstract
+//@   noinline
+//@   modifies abStep, abArr, abOff, abLen, ab2Arr, ab2Off, ab2Len
+//@   ghostset-at-entry abStep = 0
+//@   assert before URI.appendSchemeHost: abStep == 0 && sameSlice(arg1, dst) && arg0 == u
+//@   ghostset after URI.appendSchemeHost: abStep = 1
+//@   ghostset after URI.appendSchemeHost: abArr = arr(result)
+//@   ghostset after URI.appendSchemeHost: abOff = off(result)
+//@   ghostset after URI.appendSchemeHost: abLen = len(result)
+//@   assert before URI.RequestURI: arg0 == u
+//@   ghostset after URI.RequestURI: ab2Arr = arr(result)
+//@   ghostset after URI.RequestURI: ab2Off = off(result)
+//@   ghostset after URI.RequestURI: ab2Len = len(result)
+//@   assert before append#0: abStep == 1 && abIs(arg0) && ab2Is(arg1)
+//@   assert before append#1: abStep == 2 && abIs(arg0) && len(arg1) == 1 && arg1[0] == '#'
+//@   assert before append#2: abStep == 3 && abIs(arg0) && sameSlice(arg1, u.hash)
+//@   ghostset after append: abStep = abStep + 1
+//@   ghostset after append: abArr = arr(result)
+//@   ghostset after append: abOff = off(result)
+//@   ghostset after append: abLen = len(result)
+//@   top-ensures abIs(r) && (len(u.hash) > 0 ==> abStep == 4) && (len(u.hash) == 0 ==> abStep == 2)
+
+//@ func URI.FullURI(u) r
+//@   props C17
+//@   abstract
+//@   noinline
+//@   modifies abArr, abOff, abLen
+//@   assert before URI.AppendBytes: arg0 == u && len(arg1) == 0
+//@   ghostset after URI.AppendBytes: abArr = arr(result)
+//@   ghostset after URI.AppendBytes: abOff = off(result)
+//@   ghostset after URI.AppendBytes: abLen = len(result)
+//@   top-ensures abIs(r) && abIs(u.fullURI)
+
 // URI.parse: panic-free for every host/uri; the path buffer and the original-path buffer stay separate arrays
 // (normalizePath's precondition), which parse itself preserves.
 //@ func URI.parse(u, host, uri, isTLS)
